@@ -568,6 +568,7 @@ package sipsp
 //@   law[C03,C02] EXT(buf) when flags&POptInputEndF == 0
 //@   requires bufOK(buf) && 0 <= offs && offs <= len(buf) && param != nil && ptOK(param, offs)
 //@   modifies *param
+//@   split ptInv(buf, param, offs, flags)
 //@   loop 0 "for i < len(buf)"
 //@     invariant offs <= i && i <= len(buf) && ptOK(param, i) && param.state != vpFIN
 //@     invariant (i == offs ==> param.state == param_old.state) && (param.state == vpInitNxtVal ==> param_old.state == vpInitNxtVal)
